@@ -2,6 +2,7 @@
 part_stack(ctx) -> number of evaluations.  See notes/C14-stack.md."""
 import random
 
+from vlib import c14s_frames as FR
 from vlib import coqrun
 from vlib.common import COQ
 
@@ -725,6 +726,16 @@ def stackmodel_differential(ctx, n):
 
 
 # ------------------------------------------------------------------ corpus checks
+def _frame_fails(fr, cfg, src, stats, fails):
+    """cross-function disjointness of spill regions on this compile (c14s_frames.FrameRecorder)"""
+    stats["spill_slots_checked"] = stats.get("spill_slots_checked", 0) + fr.n_slots
+    if fr.bad:
+        b = fr.bad[0]
+        fails.insert(0, ("failing-input", f"a function's spill slot aliases memory of a function active on the call chain under {cfg.name}: "
+                         f"slot {b.get('spill_slot')} of {str(b.get('function'))[:40]} aliases {b.get('aliases', b.get('problem'))}",
+                         {"config": cfg.name, "source": src, "aliasing": fr.bad[:4], "_key": FR.KEY}))
+
+
 def corpus_checks(ctx, tier):
     """deep-stack contracts under every venom configuration: compiles (no crash), every SWAPn/DUPn token has n <= 16,
     the scheduler's stack maps agree on all incoming edges of every join block, and the contract computes the same
@@ -760,7 +771,7 @@ def corpus_checks(ctx, tier):
             ctx.log(f"legacy reference failed: {type(e).__name__}: {e}")
         for cfg in cfgs:
             try:
-                with C.EdgeRecorder() as rec, TV.InstRecorder() as tv:
+                with C.EdgeRecorder() as rec, TV.InstRecorder() as tv, FR.FrameRecorder() as fr:
                     cd = CompilerData(src, settings=cfg.settings())
                     with anchor_settings(cd.settings):
                         asm = cd.assembly_runtime
@@ -771,6 +782,7 @@ def corpus_checks(ctx, tier):
                               {"config": cfg.name, "source": src, "error": f"{type(e).__name__}: {e}", "trace": traceback.format_exc()[-1500:]}))
                 continue
             stats["compiles"] += 1
+            _frame_fails(fr, cfg, src, stats, fails)
             stats["instructions_validated"] += tv.n_ok
             stats["instructions_skipped"] += tv.n_skip
             if tv.fail:
@@ -812,7 +824,7 @@ def corpus_checks(ctx, tier):
     for name, src in extra:
         for cfg in cfgs[:2] if tier == "quick" else cfgs[:6]:
             try:
-                with C.EdgeRecorder() as rec, TV.InstRecorder() as tv:
+                with C.EdgeRecorder() as rec, TV.InstRecorder() as tv, FR.FrameRecorder() as fr:
                     cd = CompilerData(src, settings=cfg.settings())
                     with anchor_settings(cd.settings):
                         cd.assembly_runtime
@@ -821,6 +833,7 @@ def corpus_checks(ctx, tier):
                               {"config": cfg.name, "source": src}))
                 continue
             stats["compiles"] += 1
+            _frame_fails(fr, cfg, src, stats, fails)
             stats["instructions_validated"] += tv.n_ok
             stats["instructions_skipped"] += tv.n_skip
             n, bad = C.join_disagreements(rec.records)
@@ -832,7 +845,9 @@ def corpus_checks(ctx, tier):
                 fails.append(("failing-input", f"stack layouts of the predecessors of a join block disagree ({name}, {cfg.name}): {bad[0]['what']}",
                               {"config": cfg.name, "source": src, "disagreements": bad[:3]}))
     # fixed programs with historically problematic shapes: all checks + results equal the legacy pipeline
-    for src, calls in C.FIXED:
+    for entry in C.FIXED:
+        src, calls = entry[:2]
+        fkey = entry[2] if len(entry) > 2 else None
         rout = configs.compile_src(src, configs.Config(False, "gas", "cancun"), formats=("bytecode", "method_identifiers"))
         chr_ = Chain("cancun")
         raddr = chr_.deploy(bytes.fromhex(rout["bytecode"][2:]))
@@ -840,7 +855,7 @@ def corpus_checks(ctx, tier):
         ref = [chr_.call(raddr, mk(sig, args)) for sig, args in calls]
         for cfg in cfgs:
             try:
-                with C.EdgeRecorder() as rec, TV.InstRecorder() as tv:
+                with C.EdgeRecorder() as rec, TV.InstRecorder() as tv, FR.FrameRecorder() as fr:
                     cd = CompilerData(src, settings=cfg.settings())
                     with anchor_settings(cd.settings):
                         cd.assembly_runtime
@@ -849,6 +864,7 @@ def corpus_checks(ctx, tier):
                 fails.append(("failing-input", f"venom back end crashes under {cfg.name}: {type(e).__name__}: {e}"[:300], {"config": cfg.name, "source": src}))
                 continue
             stats["compiles"] += 1
+            _frame_fails(fr, cfg, src, stats, fails)
             stats["instructions_validated"] += tv.n_ok
             n, bad = C.join_disagreements(rec.records)
             stats["join_blocks"] += n
@@ -865,7 +881,8 @@ def corpus_checks(ctx, tier):
                 stats["calls"] += 1
                 if (r.ok, r.out) != (r0.ok, r0.out):
                     fails.append(("failing-input", f"{sig}{args} returns a different result under {cfg.name} than under legacy-gas-cancun",
-                                  {"config": cfg.name, "source": src, "call": f"{sig} {args}", "legacy": [r0.ok, r0.out.hex()], "venom": [r.ok, r.out.hex()]}))
+                                  {"config": cfg.name, "source": src, "call": f"{sig} {args}", "legacy": [r0.ok, r0.out.hex()], "venom": [r.ok, r.out.hex()],
+                                   "_key": fkey}))
                     break
     call_family_checks(ctx, tier, stats, fails)
     return stats, fails
@@ -907,7 +924,7 @@ def call_family_checks(ctx, tier, stats, fails):
         want = [chr_.call(ra, mk(s, x)) for s, x in calls]
         for cfg in cfgs:
             try:
-                with C.EdgeRecorder() as rec, TV.InstRecorder() as tv:
+                with C.EdgeRecorder() as rec, TV.InstRecorder() as tv, FR.FrameRecorder() as fr:
                     cd = CompilerData(src, settings=cfg.settings())
                     with anchor_settings(cd.settings):
                         cd.assembly_runtime
@@ -919,6 +936,7 @@ def call_family_checks(ctx, tier, stats, fails):
                               {"config": cfg.name, "source": src, "trace": traceback.format_exc()[-1500:]}))
                 continue
             stats["compiles"] += 1
+            _frame_fails(fr, cfg, src, stats, fails)
             stats["instructions_validated"] += tv.n_ok
             stats["instructions_skipped"] += tv.n_skip
             stats["rets_validated"] += tv.by_op.get("ret", 0)
@@ -1011,7 +1029,8 @@ def _part_stack(ctx) -> int:
     for kind, name, detail in fails[:4]:
         if kind == "failing-input":
             found = True
-        ctx.violation(kind, name, detail, key="c14s:corpus:" + name[:60])
+        key = detail.pop("_key", None) or "c14s:corpus:" + name[:60]
+        ctx.violation(kind, name, detail, key=key)
     if pending is not None and not found:
         ctx.violation(pending[0], pending[1], pending[2])
     ctx.trusted += ["tools/vlib/c14s_translate.py (StackModel translator; validated per run against CPython)",
